@@ -5,7 +5,7 @@ EXTENDS Integers, TLC, Json
 VARIABLE s
 Space == [mode : {"encfooter", "plainfooter"}, keys : {"footer", "percol"}, ver : {1, 2}, codec : {"none", "snappy"},
           dict : BOOLEAN, tamper : {"none", "flip", "swap", "otherfile", "othercol", "otherrg", "wrongkey", "nokey", "truncate"},
-          at : 0..2, path : {"seq", "seek"}, index : BOOLEAN]
+          at : 0..2, path : {"seq", "seek", "readseek"}, index : BOOLEAN, fid : {"explicit", "default"}]
 Init == s \in Space
 Next == UNCHANGED s
 Emit == PrintT(<<"SCENARIO", ToJson(s)>>)
